@@ -2,7 +2,7 @@
 import ast
 import re
 
-from ..src import walk, calls, call_name, dotted, const, loc, unparse, norm, AnchorError, ExtractError, last_attr
+from ..src import walk, calls, call_name, dotted, const, loc, unparse, norm, AnchorError, ExtractError, last_attr, parent
 from ..cfg import CFG
 from ..peval import Evaluator, Obj, Unknown
 
@@ -217,6 +217,59 @@ def run(repo, chk):
                "evaluate() sets self._last_value on every call: the second control that shares the condition object (the simulator itself pairs every setting control with a "
                "status control on the SAME condition) sees 'already beyond the threshold' and gets no partial step", expected="derived from tank._prev_head", found=found)
 
+    # ---------------------------------------------------------------- R-C05-7 conditions see what is reported
+    # "condition true on the REPORTED state": the pressure a junction condition reads (node.pressure -> _pressure, written by
+    # store_results_in_network) is the pressure save_results reports, on the isolated and on the connected path
+    import sympy as sp
+    from ._shared import final_stores_sym, forced
+    sfn, rows, ex = final_stores_sym(repo)
+    svf = repo.func("wntr/sim/hydraulics.py", "save_results")
+    chk.fn(sfn, svf)
+    jl = [n for n in walk(svf) if isinstance(n, ast.For) and "junctions()" in unparse(n.iter)]
+    if not jl:
+        raise ExtractError("save_results: junction loop not found")
+    rep = {}
+    for c in calls(jl[0]):
+        if last_attr(c) == "append" and "'pressure'" in unparse(c.func.value):
+            g = parent(c)
+            while g is not None and not isinstance(g, ast.If) and g is not jl[0]:
+                g = parent(g)
+            key = "always"
+            if isinstance(g, ast.If) and "_is_isolated" in unparse(g.test):
+                inbody = any(c in list(ast.walk(x)) for x in g.body)
+                pos = "not " not in unparse(g.test)
+                key = "isolated" if inbody == pos else "connected"
+            rep[key] = c.args[0]
+    pp = repo.func("wntr/network/base.py", "Node.pressure")
+    chk.expect(any(isinstance(r, ast.Return) and unparse(r.value) == "self._pressure" for r in walk(pp)), "R-C05-7", "a junction's pressure property returns the stored _pressure", loc(pp))
+    done = set()
+    for ctx, conds, finals in rows:
+        if ctx != "wn.junctions()":
+            continue
+        iso = forced("node._is_isolated", conds)
+        if iso is None:
+            continue
+        which = "isolated" if iso else "connected"
+        if which in done:
+            continue
+        done.add(which)
+        seen_p, head_v = finals.get("node._pressure"), finals.get("node._head")
+        r_expr = rep.get(which, rep.get("always"))
+        if seen_p is None or head_v is None or r_expr is None:
+            raise ExtractError("R-C05-7: pressure bookkeeping not extractable for the %s path" % which)
+        sub = {ex.sym("node._head"): head_v, ex.sym("node.head"): head_v}
+        seen_v = sp.simplify(sp.sympify(seen_p).subs(sub))
+        from ..symx import SymExec as _SE
+        rv = _SE().S(const(r_expr)) if const(r_expr, None) is not None else sp.sympify(ex.sym("node.head") - ex.sym("node.elevation")) if unparse(r_expr) == "node.head - node.elevation" else None
+        if rv is None:
+            raise ExtractError("R-C05-7: reported pressure expression not recognised: %s" % unparse(r_expr))
+        rep_v = sp.simplify(sp.sympify(rv).subs(sub))
+        chk.expect(sp.simplify(seen_v - rep_v) == 0, "R-C05-7", "the pressure a condition reads for a %s junction is the pressure that is reported" % which, loc(sfn),
+                   "save_results reports %s for a %s junction while conditions read node.pressure = %s: a pressure control can be true on the reported state and false "
+                   "inside the simulator" % (rep_v, which, seen_v), expected=str(rep_v), found=str(seen_v))
+    if done != {"isolated", "connected"}:
+        raise ExtractError("R-C05-7: isolated / connected paths of store_results_in_network not both found (%s)" % sorted(done))
+
     # ---------------------------------------------------------------- R-C05-4 firing order of triggered controls
     # tank-level / pressure controls are pre-and-post-solve: among the controls triggered in one step the scheduler must take the one
     # whose threshold is crossed FIRST (largest partial step) and let priority decide only among equal instants; post-solve lists are
@@ -226,6 +279,7 @@ def run(repo, chk):
 
 
 WITNESSES = [
+    dict(name="isolated-junction-pressure-from-elevation", file="wntr/sim/hydraulics.py", old="            node._pressure = 0\n", new="            node._pressure = node._head - node.elevation\n", rule="R-C05-7"),
     dict(name="update-condition-keeps-old-type", file=CTRL, old="        super().update_condition(condition)\n        self._control_type = self._control_type_of(condition)\n", new="        super().update_condition(condition)\n", rule="R-C05-5"),
     dict(name="tank-condition-compares-with-own-memo", file=CTRL, old="        if state and not relation(np.round(last_value,10), np.round(thresh_value,10)):", new="        if state and not relation(np.round(self._last_value,10), np.round(thresh_value,10)):", rule="R-C05-6"),
     dict(name="presolve-priority-before-time", file=CORE, old="        presolve_controls_to_run.sort(key=lambda i: i[1], reverse=True)\n", new="        presolve_controls_to_run.sort(key=lambda i: (i[0]._priority, -i[1]))\n", rule="R-C05-4"),
